@@ -3176,7 +3176,8 @@ class SEVM:
 
                 if max_depth and step_id > max_depth:
                     warn(
-                        f"{self.fun_info.sig}: incomplete execution due to the specified limit: --depth {max_depth}",
+                        # note: the contract name keeps the (deduplicated) warning distinct for same-named tests of other contracts
+                        f"{self.fun_info.contract_name}: {self.fun_info.sig}: incomplete execution due to the specified limit: --depth {max_depth}",
                         allow_duplicate=False,
                     )
                     continue
